@@ -47,7 +47,7 @@ def fault_stage(run, pid, tier, seed, results, judge, identity, extra_identities
     cands = []
     for sc, obs, r in results:
         if sc.get("phases") or not obs.get("requests") or any(ph["class"] for s_ in sc["sets"] for ph in s_["phases"]):
-            continue   # delegated phases: the fault stage of C15 covers them
+            continue   # scenarios with delegated phases are not part of this stage
         for i, q in enumerate(obs["requests"]):
             for kind in ("err", "lost"):
                 cands.append((sc, i, kind, q.split()[0] in ("get", "list")))
